@@ -292,6 +292,39 @@ fn run_job(j: &Job, rep: &mut Report) {
             rep.violate(Violation { sig, detail, replay: json!({"stack": j.stack.tag(), "len": j.len, "history": hist.iter().map(sjson).collect::<Vec<_>>()}), weight: (j.len * 1000 + hist.len()) as u64 });
         }
     };
+    if j.tree_depth == 99 {
+        // long stream: sparse targets around the 256th (and 65536th) chunk / block, bounded reads
+        rep.class(&format!("{}/long-stream", j.stack.tag()));
+        let mut targets = vec![0usize, 1, j.len - 1, j.len];
+        for unit in [CHUNK, BLOCK] {
+            for k in [255usize, 256, 257, 65535, 65536, 65537] {
+                for d in [-1i64, 0, 1] {
+                    let t = (k * unit) as i64 + d;
+                    if t >= 0 && (t as usize) <= j.len {
+                        targets.push(t as usize);
+                    }
+                }
+            }
+        }
+        targets.sort();
+        targets.dedup();
+        for t in targets {
+            for hist in [vec![S::Start(t), S::Pos, S::Read(100), S::Pos], vec![S::End(t), S::Pos, S::Read(100)], vec![S::Read(5), S::Cur(t), S::Pos, S::Read(100)]] {
+                rep.evaluations += 1;
+                let h = fnv(format!("{:?}{}{:?}", j.stack, j.len, hist).as_bytes());
+                rep.state(h);
+                rep.nontrivial(h);
+                let mut tr = 0;
+                let r = run_history(j.stack, &plain, &built, &hist, false, &mut tr);
+                rep.transitions += tr;
+                if let Some((sig, detail)) = r {
+                    rep.violate(Violation { sig, detail, replay: json!({"stack": j.stack.tag(), "len": j.len, "history": hist.iter().map(sjson).collect::<Vec<_>>()}), weight: (j.len * 1000 + hist.len()) as u64 });
+                }
+            }
+        }
+        infra::watch_idle();
+        return;
+    }
     if j.tree_depth == 0 {
         rep.class(&format!("{}/every-target/len%chunk={}", j.stack.tag(), if j.len % CHUNK == 0 { "0" } else { "nz" }));
         // depth 1, complete: every target, three seek kinds (Current after a fixed prefix read)
@@ -388,6 +421,11 @@ pub fn run(started: Instant) -> i32 {
             jobs.push(Job { stack, len: *len, tree_depth: depth });
         }
     }
+    // long streams: more than 256 chunks / blocks everywhere, more than 65536 chunks for the encryption layer
+    for stack in Stack::ALL {
+        jobs.push(Job { stack, len: 258 * BLOCK + 3, tree_depth: 99 });
+    }
+    jobs.push(Job { stack: Stack::Encrypt, len: 65_538 * CHUNK + 7, tree_depth: 99 });
     let mut rep = infra::par_explore(&jobs, |j, rep| run_job(j, rep));
     real_writer_jobs(&mut rep, thorough);
     rep.sample(json!({"stack": "raw+encrypt", "len": CHUNK, "history": [["seek_end_to", CHUNK], ["stream_position"]], "then": "read to end"}));
@@ -400,7 +438,7 @@ pub fn run(started: Instant) -> i32 {
         rep,
         Meta {
             level: "model_checking",
-            rule: "layer stacks built as `mlar info` builds them (RawLayerReader+reset_position, EncryptionLayerReader, CompressionLayerReader, initialize) over streams produced by the real RawLayerWriter/CompressionLayerWriter and an independent AES-GCM chunk encoder (plus the encryption layer of real ArchiveWriter archives as a second source); for EVERY plaintext length 0..=2*block+chunk+8 and EVERY target in [0,len]: seek from start / from end / from the current position (after a 5-byte read), stream_position, then read to the end, in lock-step with std::io::Cursor; plus the complete tree of histories of depth 2 (thorough 3) over boundary targets x 3 seek kinds, read(k) and stream_position for 18 boundary lengths. non-trivial = distinct (stack, length, history) with length > 0".to_string(),
+            rule: "layer stacks built as `mlar info` builds them (RawLayerReader+reset_position, EncryptionLayerReader, CompressionLayerReader, initialize) over streams produced by the real RawLayerWriter/CompressionLayerWriter and an independent AES-GCM chunk encoder (plus the encryption layer of real ArchiveWriter archives as a second source); for EVERY plaintext length 0..=2*block+chunk+8 and EVERY target in [0,len]: seek from start / from end / from the current position (after a 5-byte read), stream_position, then read to the end, in lock-step with std::io::Cursor; plus the complete tree of histories of depth 2 (thorough 3) over boundary targets x 3 seek kinds, read(k) and stream_position for 18 boundary lengths; plus long streams (258 blocks = 1032 chunks on every stack, 65538 chunks on the encryption stack) with seeks of the three kinds to targets around the 256th / 65536th unit edges. non-trivial = distinct (stack, length, history) with length > 0".to_string(),
             exhaustive: true,
             bounds: json!({"lengths": format!("0..={maxlen}"), "stacks": Stack::ALL.iter().map(|s| s.tag()).collect::<Vec<_>>(), "tree_depth": depth, "tree_lengths": blens}),
             assumptions: vec!["scaled constants; only targets inside [0, len] are generated (the property's domain); short reads are accepted".to_string()],
